@@ -51,7 +51,9 @@ THEOREMS = {
              "abort_only_outside_classes", "init_defaults")],
     "C09": _gt("reserved_eq", "example_eq", "exampleLabel_eq", "lenFilter_eq", "tldTypeEnum_eq") + [("Eav.Props.C09", "Eav.Props.C09." + n) for n in
             ("walkers", "skip_to_last_two", "checkTable_iff", "filter_ok", "tail_decision", "special_iff", "special_iff_host", "copyLabel_take")],
-    "C10": _gt("errEnum_eq"),
+    "C10": _gt("errEnum_eq") + [("Eav.Props.C10", "Eav.Props.C10." + n) for n in
+            ("same_conversion_same_outcome", "isAsciiDomain_lower", "ascii_domain_agree", "checkTld_lower", "utf8_as_ascii", "ascii_modes_agree",
+             "refusal_is_idn_error")] + [("Eav.Props.C19", "Eav.Props.C19.idn_failure_rejected")],
     "C11": _gt("tldTypeEnum_eq") + [("Eav.Props.C11", "Eav.Props.C11." + n) for n in
             ("table_eq_gen", "names_sorted", "names_distinct", "names_lower_alabel", "lengths_and_types", "same_rows", "ascii_rows_equal",
              "types_equal", "domains_txt_eq")] + [("Eav.Props.C07", "Eav.Props.C07.isTld_eq_csv")],
@@ -76,7 +78,8 @@ THEOREMS = {
            [("Eav.Props.C13", "Eav.Props.C13." + n) for n in ("inv_setup", "free_releases", "run_inv", "lifecycle_releases")],
     "C19": _gt("errEnum_eq") + [("Eav.Props.C19", "Eav.Props.C19." + n) for n in
             ("idn_failure_rejected", "idn_failure_verdict", "idn_failure_contained")] + [("Eav.Props.C13", "Eav.Props.C13.isEmail_outcome")],
-    "C20": _gt("init_values"),
+    "C20": _gt("init_values") + [("Eav.Props.C20", "Eav.Props.C20." + n) for n in
+            ("getlines_flatten", "getlinesAux_records", "sanitize_clean", "echo_unchanged", "trim_plain", "verdicts_le_lines")],
 }
 
 TRUSTED = [
